@@ -268,6 +268,16 @@ NEGATIVE = [
                                         'einen Kasten, und erstellen sie so:\n\t"ein_Kasten"\n',
                        "main.ddp": HEAD + 'Binde "m1" ein.\nDer Kasten k ist ein_Kasten.\nSchreibe (innen von k) auf eine Zeile.\n'}),
 ]
+# a by-name import gives names of the named module only: what that module itself imported is not re-exported
+for _kind in KINDS:
+    _name = "Tief" if _kind in ("struct", "typealias", "typedef") else "tief"
+    for _how, _imp in (("whole", 'Binde "m1" ein.\n'), ("by-name", 'Binde %s aus "m1" ein.\n' % _name)):
+        NEGATIVE.append(("reexport-by-name:%s:%s" % (_kind, _how),
+                         {"m1.ddp": HEAD + decl_src(_kind, _name, True, 5), "m2.ddp": HEAD + _imp + "Die öffentliche Zahl mitte ist 1.\n",
+                          "main.ddp": HEAD + ('Binde %s aus "m2" ein.\n' % _name) + use_src(_kind, _name, 5)[0]}))
+        NEGATIVE.append(("reexport-by-name-with-own:%s:%s" % (_kind, _how),
+                         {"m1.ddp": HEAD + decl_src(_kind, _name, True, 5), "m2.ddp": HEAD + _imp + "Die öffentliche Zahl mitte ist 1.\n",
+                          "main.ddp": HEAD + ('Binde mitte und %s aus "m2" ein.\n' % _name) + "Schreibe mitte auf eine Zeile.\n"}))
 # directory imports of directories without modules: rejected or accepted, but answered (never a crash of the code generator)
 ANSWERED = [
     ("dir-empty", {"leer/.keep": "", "main.ddp": HEAD + 'Binde alle Module aus "leer" ein.\nSchreibe 1 auf eine Zeile.\n'}),
